@@ -1001,7 +1001,9 @@ class mru_cache(object):
                         cache.clear() 
                         queue.clear()
                     else: # purge most recently used cache entry
-                        k = queue_pop()
+                        if queue: k = queue_pop()
+                        else: # no recorded use (e.g. cache filled by load)
+                            k = next(j for j in cache if j != key)
                         if cache.archived(): cache.dump(k)
                         try: del cache[k]
                         except KeyError: pass #FIXME: possible none purged
